@@ -245,7 +245,7 @@ func genProc(rng *Rng, tier string) []*procCase {
 			}
 			c := base("timing:past-deadline", cmd)
 			c.Out, c.Err = validStdout(cmd, c.Name), e
-			c.SleepMs, c.DeadlineMs = 16000, 300+rng.Intn(300)
+			c.SleepMs, c.DeadlineMs = 16000, 1500+rng.Intn(500) // late enough for the stub to have printed its output on a loaded machine
 			c.Cancel = (k == 1)
 			c.Exit = rng.Intn(2)
 			add(c)
@@ -269,7 +269,7 @@ func genProc(rng *Rng, tier string) []*procCase {
 		// deadline + descendant
 		c = base("timing:past-deadline+descendant", cmd)
 		c.Out = validStdout(cmd, c.Name)
-		c.SleepMs, c.DeadlineMs, c.DescMs = 16000, 400, 16000
+		c.SleepMs, c.DeadlineMs, c.DescMs = 16000, 1200, 16000
 		c.Cancel = rng.Bool()
 		add(c)
 		// slow but within the deadline
@@ -340,6 +340,23 @@ func genProc(rng *Rng, tier string) []*procCase {
 			add(c)
 		}
 	}
+	// G. (thorough) full product stdout class x stderr class x exit code for metadata
+	if tier == "thorough" {
+		nm := Pick(rng, pluginNames)
+		for _, o := range metaStdouts(nm) {
+			for _, e := range ses {
+				for _, ex := range exits {
+					c := base("product:"+o.Label+"|"+e.Label, 0)
+					c.Name = nm
+					c.Out, c.Err = o.Bytes, e.Bytes
+					if ex != 0 {
+						c.Exit = pickExit()
+					}
+					add(c)
+				}
+			}
+		}
+	}
 	// F. random combinations
 	nRand := 40
 	if tier == "thorough" {
@@ -375,7 +392,7 @@ func genProc(rng *Rng, tier string) []*procCase {
 			}
 		}
 		if tier == "thorough" && rng.Chance(1, 25) {
-			c.SleepMs, c.DeadlineMs = 16000, 200+rng.Intn(800)
+			c.SleepMs, c.DeadlineMs = 16000, 1200+rng.Intn(800)
 			c.Cancel = rng.Bool()
 		}
 		if tier == "thorough" && rng.Chance(1, 25) {
